@@ -169,6 +169,10 @@ pub struct Spec {
     /// filler cells (read by no gate) are copies of earlier outputs instead of free values
     #[serde(default)]
     pub filler_copies: bool,
+    /// gates with a fixed coefficient column query it at the next row (the coefficient of a gate
+    /// enabled at row r is written at row r + 1)
+    #[serde(default)]
+    pub fixed_rot: bool,
 }
 
 impl Spec {
@@ -205,6 +209,9 @@ impl Spec {
         }
         if used.iter().any(|g| g.sel == SelKind::FixedQ) {
             f.push("fixed-coefficient");
+            if self.fixed_rot {
+                f.push("fixed-column-queried-at-rotation");
+            }
         }
         if used.iter().any(|g| g.sel == SelKind::Complex) {
             f.push("complex-selector");
@@ -918,6 +925,7 @@ impl Circuit<F> for GenCircuit {
             let challenges = challenges.clone();
             let g2 = g.clone();
             let sel2 = sel.clone();
+            let spec_fixed_rot = spec.fixed_rot;
             meta.create_gate(GATE_NAMES[gi], move |m| {
                 let q = |m: &mut midnight_proofs::plonk::VirtualCells<'_, F>, c: &CellRef| m.query_advice(advice[c.col], Rotation(c.rot));
                 let mut polys: Vec<Expression<F>> = vec![];
@@ -946,7 +954,7 @@ impl Circuit<F> for GenCircuit {
                     (GateSel::Sel(s), SelKind::Additive) => Constraints::with_additive_selector(*s, polys),
                     (GateSel::Sel(s), _) => Constraints::with_selector(*s, polys),
                     (GateSel::Q(c), _) => {
-                        let qe = m.query_fixed(*c, Rotation::cur());
+                        let qe = m.query_fixed(*c, if spec_fixed_rot { Rotation::next() } else { Rotation::cur() });
                         Constraints::without_selector(polys.into_iter().map(|p| qe.clone() * p).collect::<Vec<_>>())
                     }
                 }
@@ -1054,7 +1062,7 @@ impl Circuit<F> for GenCircuit {
                         match &cfg.gate_sel[*g] {
                             GateSel::Sel(s) => s.enable(&mut region, *off)?,
                             GateSel::Q(c) => {
-                                region.assign_fixed(|| "q", *c, *off, || Value::known(F::ONE))?;
+                                region.assign_fixed(|| "q", *c, if spec.fixed_rot { *off + 1 } else { *off }, || Value::known(F::ONE))?;
                             }
                         }
                     }
@@ -1159,6 +1167,9 @@ pub struct Knobs {
     /// seed for redundant copy constraints (0 = none)
     #[serde(default)]
     pub redundant: u8,
+    /// fixed coefficient columns queried at the next row
+    #[serde(default)]
+    pub fixed_rot: bool,
 }
 
 pub fn knobs_strategy(max_ops: usize) -> BoxedStrategy<Knobs> {
@@ -1172,9 +1183,9 @@ pub fn knobs_strategy(max_ops: usize) -> BoxedStrategy<Knobs> {
         proptest::collection::vec((any::<bool>(), 0u8..8, 0u8..8, -2i8..=2, any::<bool>()), 0..3),
         proptest::collection::vec((0u8..20, 0u8..20), 1..6),
         proptest::collection::vec(op, 1..max_ops),
-        (0u8..8, any::<u8>(), 0u8..4, prop_oneof![1 => Just(0u16), 2 => any::<u16>()], prop_oneof![1 => Just(0u8), 2 => any::<u8>()]),
+        (0u8..8, any::<u8>(), 0u8..4, prop_oneof![1 => Just(0u16), 2 => any::<u16>()], prop_oneof![1 => Just(0u8), 2 => any::<u8>()], proptest::bool::weighted(0.3)),
     )
-        .prop_map(|((n_advice, phases, unblinded, n_instance), gates, lookups, table, ops, (min_degree, eq_mask, k_extra, alloc, redundant))| Knobs {
+        .prop_map(|((n_advice, phases, unblinded, n_instance), gates, lookups, table, ops, (min_degree, eq_mask, k_extra, alloc, redundant, fixed_rot))| Knobs {
             n_advice,
             phases,
             unblinded,
@@ -1188,6 +1199,7 @@ pub fn knobs_strategy(max_ops: usize) -> BoxedStrategy<Knobs> {
             k_extra,
             alloc,
             redundant,
+            fixed_rot,
         })
         .boxed()
 }
@@ -1364,6 +1376,7 @@ pub fn expand(kn: &Knobs) -> Spec {
         alloc_order,
         redundant: kn.redundant,
         filler_copies: kn.redundant & 1 == 1,
+        fixed_rot: kn.fixed_rot,
     };
     // k_extra 3: the tightest domain the constraint system admits (possibly exactly
     // `minimum_rows` rows, i.e. two usable rows); otherwise a comfortable k plus 0..2
@@ -1378,7 +1391,7 @@ pub fn tight_k(spec: &Spec) -> u32 {
     let _ = GenCircuit::configure_with_params(&mut cs, spec.clone());
     let plan = build_plan(spec, 0);
     let table = if spec.lookups.is_empty() { 0 } else { spec.table.len() + 1 };
-    let rows: usize = (plan.regions.iter().map(|r| r.height).sum::<usize>()).max(table);
+    let rows: usize = (plan.regions.iter().map(|r| r.height).sum::<usize>() + if spec.fixed_rot { plan.regions.len() } else { 0 }).max(table);
     let inst = plan.instances.iter().map(|c| c.len()).max().unwrap_or(0);
     let mut k = 1;
     while (1usize << k) < cs.minimum_rows() || rows.max(inst) + cs.blinding_factors() + 1 > (1usize << k) {
@@ -1392,7 +1405,7 @@ pub fn min_k(spec: &Spec) -> u32 {
     let mut cs = ConstraintSystem::<F>::default();
     let _ = GenCircuit::configure_with_params(&mut cs, spec.clone());
     let plan = build_plan(spec, 0);
-    let rows: usize = plan.regions.iter().map(|r| r.height).sum::<usize>() + spec.table.len() + 2;
+    let rows: usize = plan.regions.iter().map(|r| r.height).sum::<usize>() + spec.table.len() + 2 + if spec.fixed_rot { plan.regions.len() } else { 0 };
     let inst = plan.instances.iter().map(|c| c.len()).max().unwrap_or(0);
     let need = rows.max(inst).max(cs.minimum_rows()) + cs.blinding_factors() + 2;
     let mut k = 3;
